@@ -75,13 +75,14 @@ m("c11-precision-ignored", "C11", UL, '            precision = dictionary["preci
 m("c11-parities-correlations-first-only", "C11", PA, '                convert_array_to_dict(arr) for arr in self.correlations\n', '                convert_array_to_dict(arr) for arr in self.correlations[:1]\n', "only the first correlation frame of parities saved")
 m("c11-opset-skips-empty", "C11", OI, "    for operator in operator_set:\n        dictionary", "    for operator in operator_set:\n        if not operator.terms:\n            continue\n        dictionary", "empty operators skipped in operator sets")
 # ------------------------------------------------------------------ C12
-m("c12-no-rollback", "C12", WF, "            self._amplitude_vector[idx] = old_val\n\n            raise", "            raise", "rollback line removed")
+m("c12-no-rollback", "C12", WF, "            if isinstance(self._amplitude_vector, np.ndarray):\n                self._amplitude_vector[...] = old_amplitudes\n            else:\n                self._amplitude_vector[:, :] = old_amplitudes\n\n            raise", "            raise", "rollback removed")
 m("c12-validate-before-write", "C12", WF, "        self._amplitude_vector[idx] = val\n\n        try:\n            self._check_normalization(self._amplitude_vector)", "        try:\n            self._check_normalization(self._amplitude_vector)\n            self._amplitude_vector[idx] = val", "validation happens before the write")
 m("c12-bind-unchecked", "C12", WF, "        try:\n            return type(self)(result)\n        except ValueError:", "        try:\n            out = object.__new__(type(self))\n            out._amplitude_vector = result\n            return out\n        except ValueError:", "bind builds its result without the constructor check")
 m("c12-dicke-off-by-one", "C12", WF, "                if not _most_significant_set_bit(current_value) <= n_qubits:", "                if not _most_significant_set_bit(current_value) < n_qubits:", "Dicke enumeration stops one bit early")
 m("c12-save-drops-imag", "C12", WF, '    data["amplitudes"] = convert_array_to_dict(wavefunction.amplitudes)', '    data["amplitudes"] = convert_array_to_dict(wavefunction.amplitudes.real)', "save_wavefunction drops the imaginary part")
 m("c12-ctor-length", "C12", WF, '        if bin(len(amplitude_vector)).count("1") != 1:', '        if bin(len(amplitude_vector)).count("1") > 2:', "constructor accepts length 6")
-m("c12-old-val-view", "C12", WF, "            old_val = old_val.copy()\n", "            pass\n", "old value kept as a numpy view (the repaired defect)")
+m("c12-old-val-view", "C12", WF, "        old_amplitudes = self._amplitude_vector.copy()\n", "        old_amplitudes = self._amplitude_vector\n", "rollback keeps a reference instead of a copy")
+m("c12-rollback-one-entry", "C12", WF, "        old_amplitudes = self._amplitude_vector.copy()\n        self._amplitude_vector[idx] = val\n", "        old_amplitudes = self._amplitude_vector[idx]\n        if isinstance(old_amplitudes, np.ndarray):\n            old_amplitudes = old_amplitudes.copy()\n        self._amplitude_vector[idx] = val\n", "only the indexed entry is kept for rollback (half of the repaired defect F12)")
 # ------------------------------------------------------------------ C13
 m("c13-full-chunk-duplicated", "C13", IT, "        multiplicities * (max_sample_size,)\n        if n_samples % max_sample_size == 0", "        (multiplicities + 1) * (max_sample_size,)\n        if n_samples % max_sample_size == 0", "one extra full chunk when n is a multiple of max")
 m("c13-combine-skips-last", "C13", IT, "        reduce(_combine_measurements, islice(measurements_it, multiplicity))\n        for multiplicity in multiplicities", "        reduce(_combine_measurements, list(islice(measurements_it, multiplicity))[: max(1, multiplicity - 1)])\n        for multiplicity in multiplicities", "last copy's counts dropped when combining")
